@@ -275,7 +275,7 @@ func (d *Decoder) unmarshal(val reflect.Value, tagType byte) error {
 			return errors.New("cannot parse TagIntArray to " + vt.String() + ", length not match")
 		} else if k := vt.Kind(); k != reflect.Slice && k != reflect.Array {
 			return errors.New("cannot parse TagIntArray to " + vt.String() + ", it must be a slice")
-		} else if tk := val.Type().Elem().Kind(); tk != reflect.Int && tk != reflect.Int32 {
+		} else if tk := val.Type().Elem().Kind(); tk != reflect.Int && tk != reflect.Int32 && tk != reflect.Uint && tk != reflect.Uint32 {
 			return errors.New("cannot parse TagIntArray to " + vt.String())
 		}
 
@@ -283,12 +283,17 @@ func (d *Decoder) unmarshal(val reflect.Value, tagType byte) error {
 		if vt.Kind() == reflect.Slice {
 			buf = reflect.MakeSlice(vt, int(aryLen), int(aryLen))
 		}
+		unsigned := vt.Elem().Kind() == reflect.Uint || vt.Elem().Kind() == reflect.Uint32
 		for i := 0; i < int(aryLen); i++ {
 			value, err := d.readInt32()
 			if err != nil {
 				return err
 			}
-			buf.Index(i).SetInt(int64(value))
+			if unsigned {
+				buf.Index(i).SetUint(uint64(uint32(value)))
+			} else {
+				buf.Index(i).SetInt(int64(value))
+			}
 		}
 		if vt.Kind() == reflect.Slice {
 			val.Set(buf)
@@ -302,35 +307,39 @@ func (d *Decoder) unmarshal(val reflect.Value, tagType byte) error {
 		if aryLen < 0 {
 			return errors.New("long array len less than 0")
 		}
-		vt := val.Type() // receiver must be []int or []int64
+		vt := val.Type() // receiver must be a slice or array of int64 or uint64
 		if vt.Kind() == reflect.Interface {
 			vt = reflect.TypeOf([]int64{}) // pass
-		} else if vt.Kind() != reflect.Slice {
+		} else if vt.Kind() == reflect.Array && vt.Len() != int(aryLen) {
+			return errors.New("cannot parse TagLongArray to " + vt.String() + ", length not match")
+		} else if k := vt.Kind(); k != reflect.Slice && k != reflect.Array {
 			return errors.New("cannot parse TagLongArray to " + vt.String() + ", it must be a slice")
 		}
+		unsigned := false
 		switch vt.Elem().Kind() {
 		case reflect.Int64:
-			buf := reflect.MakeSlice(vt, int(aryLen), int(aryLen))
-			for i := 0; i < int(aryLen); i++ {
-				value, err := d.readInt64()
-				if err != nil {
-					return err
-				}
-				buf.Index(i).SetInt(value)
-			}
-			val.Set(buf)
 		case reflect.Uint64:
-			buf := reflect.MakeSlice(vt, int(aryLen), int(aryLen))
-			for i := 0; i < int(aryLen); i++ {
-				value, err := d.readInt64()
-				if err != nil {
-					return err
-				}
-				buf.Index(i).SetUint(uint64(value))
-			}
-			val.Set(buf)
+			unsigned = true
 		default:
 			return errors.New("cannot parse TagLongArray to " + vt.String())
+		}
+		buf := val
+		if vt.Kind() == reflect.Slice {
+			buf = reflect.MakeSlice(vt, int(aryLen), int(aryLen))
+		}
+		for i := 0; i < int(aryLen); i++ {
+			value, err := d.readInt64()
+			if err != nil {
+				return err
+			}
+			if unsigned {
+				buf.Index(i).SetUint(uint64(value))
+			} else {
+				buf.Index(i).SetInt(value)
+			}
+		}
+		if vt.Kind() == reflect.Slice {
+			val.Set(buf)
 		}
 
 	case TagList:
